@@ -99,6 +99,7 @@ def binary_atoms() -> list:
         Rep(bit, 8, 8),
         Seq((Rep(bit, 4, 4), Bit(0), Bit(0), Bit(0), Bit(1))),
         Rx("[\\x00\\x01]", True),
+        Rx("[\\x7f\\x80\\xff]", True),   # a bytes regex that can produce bytes >= 0x80
         Seq((NT("<nib>"), NT("<nib>"))),
         Lit("a"),
     ]
